@@ -271,6 +271,8 @@ func Scenarios() []*Scenario {
 		Clear: Stream{cliHeader(), reqAuth(0, "PLAIN", "AG1lAHdyb25n"), cliHeader(), reqBind(1, false)}})
 	add(&Scenario{Name: "recv-bind-cberr", Entry: "receiver/bind-callback-error", Neg: "std", Recv: true, Bits: bSecure, Feats: sb, BindErr: true,
 		Clear: Stream{cliHeader(), reqAuth(0, "PLAIN", plainOK), cliHeader(), reqBind(1, false)}})
+	add(&Scenario{Name: "recv-bind-stanzaerr", Entry: "receiver/bind-callback-stanza-error", Neg: "std", Recv: true, Bits: bSecure, Feats: sb, BindStanzaErr: true,
+		Clear: Stream{cliHeader(), reqAuth(0, "PLAIN", plainOK), cliHeader(), reqBind(1, false)}})
 	add(&Scenario{Name: "init-bind-error", Entry: "initiator/bind-error", Neg: "std", Bits: bSecure | bAuthn, Feats: sb,
 		Clear: Stream{srvHeader("1.0", true), featuresSeg(false, advBind(1)), bindErrorResult(false)}})
 	add(&Scenario{Name: "init-tls-refused", Entry: "initiator/starttls-refused", Neg: "std", Feats: tsb,
